@@ -94,7 +94,7 @@ PROPS = {
     "C03": dict(
         level="other",
         bounded=_both(_ops("C03"), _mod("pure"), _mod("mcsz3")),
-        lemmas=["CoveredUpTo.snoc", "MCS.bridge", "MCS.bridge2", "mem.snoc.Int", "mem.nil.Int"],
+        lemmas=["CoveredUpTo.snoc", "MCS.bridge", "MCS.bridge2", "XI", "mem.snoc.Int", "mem.nil.Int"],
         trusted=TB + ["TB-z3", "TB-time", "TB-sat"],
         assumed=[
             "RC2: RC2(wcnf).compute() returns None iff no world satisfies the hard clauses, otherwise a model of them (pysat, trusted)",
@@ -102,13 +102,13 @@ PROPS = {
             "BLOCK: the clauses of exclude_violated(v), added together, remove exactly the worlds falsifying every conditional of v (bounded: module pure)",
             "Inv_es: the clause lists of every base key and of the query denote ver / fal / nf of the conditionals (C15; bounded: module c15)",
             "termination of the enumeration loops is not proved",
-            "get_all_xi_i (z3 back-end): the Optimize-based enumeration returns the inclusion-minimal falsified sets (bounded: module mcsz3)",
+            "OptModel (TB-z3): after check() == sat, Optimize.model() denotes a world of the hard set such that no world of the hard set violates a strict subset of the soft constraints it violates (bounded: module mcsz3 compares get_all_xi_i with brute force)",
             "L3: the recursion over minimal correction sets (WREC) decides the preferred-structure definition of System W (Komo/Beierle 2022)",
             LSTOP,
             LREST,
         ],
         explanation="Engine P proves both back-ends from the real source against the recursion WREC over minimal falsified sets: "
-        "SystemWZ3._preprocess_belief_base / _inference / _rec_inference (z3 Optimize ghost model) and SystemW._preprocess_belief_base / "
+        "SystemWZ3._preprocess_belief_base / _inference / _rec_inference / get_all_xi_i (z3 Optimize ghost model with soft constraints; the enumeration loop against AllMin / Exhaustive, lemmas XI.*) and SystemW._preprocess_belief_base / "
         "_inference / _rec_inference at key level (WCNF ghost model: which clause sets become hard for which tie, subset test, "
         "exists/forall over candidates, base case, feasibility constraints of the extended mode), plus the MaxSAT enumeration they call: "
         "remove_supersets (result = the inclusion-minimal sets, each once) and the loop of OptimizerRC2.minimal_correction_subsets, from "
@@ -119,7 +119,7 @@ PROPS = {
     "C04": dict(
         level="other",
         bounded=_both(_ops("C04"), _mod("lexbias"), _mod("pure"), _mod("mcsz3")),
-        lemmas=["CoveredUpTo.snoc", "MCS.bridge", "MCS.bridge2", "mem.snoc.Int", "mem.nil.Int"],
+        lemmas=["CoveredUpTo.snoc", "MCS.bridge", "MCS.bridge2", "XI", "mem.snoc.Int", "mem.nil.Int"],
         trusted=TB + ["TB-z3", "TB-time", "TB-sat"],
         assumed=[
             "RC2: RC2(wcnf).compute() returns None iff no world satisfies the hard clauses, otherwise a model of them (pysat, trusted)",
@@ -127,13 +127,13 @@ PROPS = {
             "BLOCK: the clauses of exclude_violated(v), added together, remove exactly the worlds falsifying every conditional of v (bounded: module pure)",
             "Inv_es: the clause lists of every base key and of the query denote ver / fal / nf of the conditionals (C15; bounded: module c15)",
             "termination of the enumeration loops is not proved",
-            "get_all_xi_i (z3 back-end) as for C03",
+            "OptModel (TB-z3) as for C03",
             "L4: the recursion over minimum-cardinality correction sets (LREC: exists a verifying candidate that beats all falsifying ones) decides the lexicographic definition (Haldimann/Beierle 2022)",
             LSTOP,
             LREST,
         ],
         explanation="Engine P proves both back-ends from the real source against the recursion LREC: LexInfZ3 and LexInf "
-        "_preprocess_belief_base / _inference / _rec_inference (cardinality comparison, exists/forall over the minimum-cardinality "
+        "_preprocess_belief_base / _inference / _rec_inference (and LexInfZ3.get_all_xi_i) (cardinality comparison, exists/forall over the minimum-cardinality "
         "candidates, tie handling, base case, extended mode), plus remove_supersets and the loop of "
         "OptimizerRC2.minimal_correction_subsets (see C03). Engine B compares with the oracle, including a generator biased to layers "
         "with several minimum-cardinality sets.",
@@ -171,11 +171,19 @@ PROPS = {
     "C07": dict(
         level="other",
         bounded=_ops("C07"),
-        trusted=TB + ["TB-z3", "TB-time"],
-        assumed=["L7: extended p-entailment formulation", "contracts of the W / lex recursions", LSTOP, LREST],
-        explanation="Engine P proves the extended branches of PEntailment._inference, SystemZ._inference (vacuity test, feasibility "
-        "constraints, no-finite-layer case) and of the z3 back-ends' _inference (W, lex) from the real source; the rc2 back-ends and the "
-        "W/lex recursions are decided by the bounded oracle comparison in weakly mode.",
+        lemmas=["XI", "MCS.bridge", "MCS.bridge2", "CoveredUpTo.snoc"],
+        trusted=TB + ["TB-z3", "TB-time", "TB-sat"],
+        assumed=[
+            "L7: the extended (weakly consistent) formulations of p-entailment / Z / W / lex: conditionals of the infinity layer are hard constraints, worlds falsifying them are infeasible",
+            "L3 / L4 (links of WREC / LREC to the definitions), RC2 / GVC / BLOCK, OptModel (see C03)",
+            LSTOP,
+            LREST,
+        ],
+        explanation="Engine P proves the extended branches from the real source: PEntailment._inference, SystemZ._inference (vacuity test, "
+        "feasibility constraints, no-finite-layer case), both back-ends' _preprocess_belief_base (extended partition = greedy layers plus "
+        "the never-tolerated rest), _inference (feasibility constraints of the infinity layer, top index, no-finite-layer case) and the "
+        "recursions they call, including the two enumeration loops (rc2: minimal_correction_subsets, z3: get_all_xi_i). Engine B "
+        "compares every operator and back-end with the oracle in weakly mode.",
     ),
     "C08": dict(
         level="other",
@@ -210,11 +218,11 @@ PROPS = {
     "C11": dict(
         level="other",
         bounded=_both(_usable_only(_mod("rel", "run_c11")), _mod("pure"), _mod("mcsz3"), _mod("extra", "run_c11x")),
-        lemmas=["CoveredUpTo.snoc", "MCS.bridge", "MCS.bridge2"],
+        lemmas=["CoveredUpTo.snoc", "MCS.bridge", "MCS.bridge2", "XI"],
         trusted=TB + ["TB-z3", "TB-time", "TB-sat (RC2 assumed correct for every engine name)"],
         assumed=[
             "RC2 / GVC / BLOCK (see C03): the MaxSAT layer below minimal_correction_subsets",
-            "get_all_xi_i (z3 back-end) returns the same family of minimal falsified sets (bounded: module mcsz3)",
+            "OptModel (TB-z3): the optimum contract of z3.Optimize.model() (bounded: module mcsz3)",
             "WREC / LREC are the same specification for both back-ends: both are proved against it, which is what makes the answers agree",
         ],
         explanation="Engine P proves the back-end dispatch (create_inference_instance, create_optimizer) and proves BOTH back-ends of "
